@@ -219,6 +219,9 @@ func (d *differ) report(prog string, input any, ref Obs, fqBatched *Obs) {
 		d.splitInPath(prog, input, ref, fo)
 		return
 	}
+	if d.classify(prog, input, ref, fo) {
+		return
+	}
 	d.violate(d.section, prog, input, ref, fo, features(prog)+":in="+jqType(input))
 }
 
@@ -348,18 +351,7 @@ func (d *differ) compareBatch(progs []string, inputs []any, validate bool) {
 					continue
 				}
 				explained = true
-				if v.kind == "msg" {
-					r.Count("error_message_text_differs_only (messages are not compared)", 1)
-				}
-				if strings.Contains(v.kind, "dv") {
-					d.fromjsonDecodeValue(c.text, in, c.refs[i], obs[i][j])
-				}
-				if strings.Contains(v.kind, "split2") {
-					d.split2Order(c.text, in, c.refs[i], obs[i][j])
-				}
-				if strings.Contains(v.kind, "pathsplit") {
-					d.splitInPath(c.text, in, c.refs[i], obs[i][j])
-				}
+				d.record(v.kind, c.text, in, c.refs[i], obs[i][j])
 				break
 			}
 			if explained {
@@ -538,7 +530,9 @@ func selfTest(r *core.Run) {
 	chk(ok && sp == `splits("a") , (( .a) as $__c07f | ((( "g") as $__c07f | (",") as $__c07r | split($__c07r; $__c07f))) as $__c07r | split($__c07r; $__c07f)) , split(";") , "split(1;2)"`, "reorderSplit2: "+sp)
 	ps, ok := nativeSplitInPath(`split(",") , path(try (split(",")) catch "split(") , ((split(.a; "g"))) |= (split(",")) , del(.a)`)
 	chk(ok && ps == `split(",") , path(try (_orig_split(",")) catch "split(") , ((_orig_split(.a; "g"))) |= (split(",")) , del(.a)`, "nativeSplitInPath: "+ps)
-	for _, t := range []string{m, sp, ps} {
+	bq, ok := quoteBackslashInSplit1(`split(".") , split(","; "g") , "split(x)"`)
+	chk(ok && bq == `split((".") | if type == "string" then gsub("\\\\"; "\\\\") else . end) , split(","; "g") , "split(x)"`, "quoteBackslashInSplit1: "+bq)
+	for _, t := range []string{m, sp, ps, bq} {
 		_, err := gojq.Parse(t)
 		chk(err == nil, "rewritten program does not parse: "+t)
 	}
